@@ -452,9 +452,11 @@ class PeerConnection:
     def dwa_wait_time(self) -> int:
         """Time spent waiting for DWA, in seconds. If no DWR has been sent,
         returns zero."""
-        if not self.is_waiting_for_dwa:
+        # read once; the read thread may clear the timestamp at any time
+        last_dwr = self._last_dwr
+        if not last_dwr:
             return 0
-        return int(time.time()) - self._last_dwr
+        return int(time.time()) - last_dwr
 
     @property
     def last_read_since(self) -> int:
